@@ -238,6 +238,18 @@ std::string exec(const std::vector<std::string> &w) {
     g_params.emplace_back(new Parameter(Shape(dims), vals, *g_dev));
     return "ok";
   }
+  if (op == "init" && n == 4) {
+    // Parameter::init on an existing object (e.g. one that was invalid when add() was tried)
+    Parameter &p = *g_params.at(idx(w[1], g_params.size()));
+    std::vector<std::uint32_t> dims = vh::csv_u32(w[2] == "-" ? std::string() : w[2]);
+    std::vector<float> vals = nums(w[3]);
+    std::uint64_t prod = 1;
+    if (dims.size() > 8) throw BadOp();
+    for (std::uint32_t d : dims) { if (d == 0) throw BadOp(); prod *= d; }
+    if (prod != vals.size()) throw BadOp();
+    p.init(Shape(dims), vals, *g_dev);
+    return "ok";
+  }
   if (op == "grad" && n == 3) {
     Parameter &p = *g_params.at(idx(w[1], g_params.size()));
     std::vector<float> vals = nums(w[2]);
